@@ -376,6 +376,28 @@ def ValEnc.encodeSymbol (t : CT) (visitedFaces : Array Bool) (e : ValEnc) (lastC
 
 /-! ### EncodeConnectivity -/
 
+/-- the attribute seam bits: `EncodeAttributeConnectivitiesOnFace(ci)` for the corners of `processed` (already in the
+    decoder's order of the faces); `edgeSeams[i]` = `is_edge_on_seam_` of attribute data `i`.  Result: the bit
+    encoders and the bits themselves, per attribute data, in encoding (= decoding) order. -/
+def encodeSeamBits (t : CT) (processed : Array Nat) (edgeSeams : Array (Array Bool)) :
+    R (Array RAnsBitEnc × Array (Array Bool)) := do
+  let mut seamEnc : Array RAnsBitEnc := Array.replicate edgeSeams.size RAnsBitEnc.start
+  let mut seamBits : Array (Array Bool) := Array.replicate edgeSeams.size #[]
+  if !edgeSeams.isEmpty then
+    let mut visitedFaces := Array.replicate t.numFaces false
+    for ci in processed do
+      -- EncodeAttributeConnectivitiesOnFace(ci)
+      visitedFaces ← wrB "visited_faces_" visitedFaces (faceOf ci) true
+      for c in [ci, Eb.nextC ci, Eb.prevC ci] do
+        let oppC ← opposite t.opp c
+        if oppC == inv then continue
+        if (← rdB "visited_faces_" visitedFaces (oppC / 3)) then continue
+        for i in [0:edgeSeams.size] do
+          let isSeam ← rdB "IsCornerOppositeToSeamEdge" (edgeSeams[i]!) c
+          seamEnc := seamEnc.modify i (·.encodeBit isSeam)
+          seamBits := seamBits.modify i (·.push isSeam)
+  pure (seamEnc, seamBits)
+
 /-- what `EncodeConnectivity` leaves behind -/
 structure ConnEnc where
   /-- the corner table the mesh was encoded with -/
@@ -560,21 +582,7 @@ def encodeConnectivity (ch : ConnChoices) (valence : Bool) (posFaces : Faces)
   -- the decoder's order of the faces
   processed := processed.reverse ++ initFaceCorners
   -- attribute seams
-  let mut seamEnc : Array RAnsBitEnc := Array.replicate atts.size RAnsBitEnc.start
-  let mut seamBits : Array (Array Bool) := Array.replicate atts.size #[]
-  if !atts.isEmpty then
-    visitedFaces := Array.replicate numFacesAll false
-    for ci in processed do
-      -- EncodeAttributeConnectivitiesOnFace(ci)
-      visitedFaces ← wrB "visited_faces_" visitedFaces (faceOf ci) true
-      for c in [ci, Eb.nextC ci, Eb.prevC ci] do
-        let oppC ← opposite t.opp c
-        if oppC == inv then continue
-        if (← rdB "visited_faces_" visitedFaces (oppC / 3)) then continue
-        for i in [0:atts.size] do
-          let isSeam ← rdB "IsCornerOppositeToSeamEdge" (atts[i]!).conn.edgeSeam c
-          seamEnc := seamEnc.modify i (·.encodeBit isSeam)
-          seamBits := seamBits.modify i (·.push isSeam)
+  let (seamEnc, seamBits) ← encodeSeamBits t processed (atts.map fun a => a.conn.edgeSeam)
   -- traversal_encoder_.Done()
   let startFaceBytes := finishBits ch startFace
   let seamBytes := seamEnc.toList.flatMap (finishBits ch)
